@@ -40,6 +40,9 @@
 EXTENDS Integers, Sequences, FiniteSets, TLC, Json
 
 CONSTANTS MaxIdx, MaxTerm, MaxReady, MaxCrash,
+          InstallSaveFirst,     \* FALSE: as the code does (snapshot file, WAL snapshot record, THEN hard state). TRUE: the
+                                \* as-observed variant for B3 - a Ready loop seen to save the hard state of a snapshot-
+                                \* carrying Ready before the snapshot; its behaviours are replayed to obtain a real witness
           SnapshotMustBeInWal   \* TRUE: as the code does (LoadNewestAvailable(ValidSnapshotEntries)); FALSE: the weakened
                                 \* variant "newest readable file" - kept to show that Acceptable tells them apart
 
@@ -109,8 +112,10 @@ LocalSnap ==
 \* whose commit is the snapshot index; the hard state record is synced only if the term changes with it
 InstallSnap(i, t) ==
   /\ Idle /\ i \in (vol.last + 1)..MaxIdx /\ t \in vol.term..MaxTerm
-  /\ pend' = << [op |-> "snapfile", i |-> i, t |-> t], [op |-> "walsnap", i |-> i, t |-> t],
-                [op |-> "save", t |-> t, c |-> i, ents |-> <<>>, sync |-> (t # PrevT)] >>
+  /\ LET sv == [op |-> "save", t |-> t, c |-> i, ents |-> <<>>, sync |-> (t # PrevT)]
+         sf == [op |-> "snapfile", i |-> i, t |-> t]
+         ws == [op |-> "walsnap", i |-> i, t |-> t]
+     IN pend' = IF InstallSaveFirst THEN <<sv, sf, ws>> ELSE <<sf, ws, sv>>
   /\ vol' = [last |-> i, term |-> t, commit |-> i, snap |-> i, lt |-> (i :> t)]
   /\ nready' = nready + 1 /\ UNCHANGED <<wal, unsynced, files, hist, ncrash, up, rec>>
 
